@@ -751,6 +751,66 @@ impl Read for Pattern {
     }
 }
 
+/// `Message::from_file` / `from_armor_file`: the file entry points must stream like the reader ones.
+#[derive(Clone, Debug, Hash, Serialize, Deserialize)]
+struct FileRead {
+    armor: bool,
+    compression: u8,
+}
+
+fn run_file_read(tier: Tier, c: &FileRead) -> Outcome {
+    let dir = std::env::temp_dir().join(format!("rpgp-mc-c19-{}-{:?}", std::process::id(), std::thread::current().id()));
+    if std::fs::create_dir_all(&dir).is_err() {
+        return Outcome::trivial("no scratch directory");
+    }
+    let path = dir.join("big.pgp");
+    let cfg = MsgCfg { source: 1, armor: c.armor, compression: c.compression, partial_exp: 0, ..Default::default() };
+    let sizes: Vec<usize> = tier.pick(vec![1 << 20, 16 << 20], vec![1 << 20, 16 << 20, 64 << 20]);
+    let mut peaks = Vec::new();
+    let mut o = Outcome::ok("");
+    for &size in &sizes {
+        let built = std::fs::File::create(&path).map_err(|e| e.to_string()).and_then(|f| msg::build(&cfg, Pattern { left: size, i: 0 }, None, std::io::BufWriter::new(f), 5).map_err(|e| e.to_string()));
+        if let Err(e) = built {
+            let _ = std::fs::remove_file(&path);
+            return Outcome::bad("C19:file-entry:build-error", e);
+        }
+        let (res, u) = measure(|| -> Result<usize, String> {
+            let mut m = if c.armor { Message::from_armor_file(&path).map_err(|e| e.to_string())?.0 } else { Message::from_file(&path).map_err(|e| e.to_string())? };
+            if m.is_compressed() {
+                m = m.decompress().map_err(|e| e.to_string())?;
+            }
+            let mut buf = [0u8; 4096];
+            let mut total = 0usize;
+            loop {
+                match m.read(&mut buf) {
+                    Ok(0) => break,
+                    Ok(n) => total += n,
+                    Err(e) => return Err(e.to_string()),
+                }
+            }
+            Ok(total)
+        });
+        match res {
+            Ok(n) if n == size => {}
+            other => o.push("C19:file-entry:roundtrip-broken", format!("{c:?} {} MiB: {other:?}", size >> 20)),
+        }
+        peaks.push((size, u.peak));
+    }
+    let _ = std::fs::remove_file(&path);
+    let _ = std::fs::remove_dir(&dir);
+    let summary = peaks.iter().map(|(s, p)| format!("{} MiB: peak {} B", s >> 20, p)).collect::<Vec<_>>().join("; ");
+    let base = peaks[0].1;
+    for (_, p) in &peaks[1..] {
+        if *p > base + 256 * 1024 + 2 * 512 * 1024 {
+            o.push("C19:file-entry:reader-peak-grows-with-file", format!("Message::{} of a {} file: {summary}", if c.armor { "from_armor_file" } else { "from_file" }, if c.compression != 0 { "compressed" } else { "literal" }));
+            break;
+        }
+    }
+    o.class = format!("read<{}KiB", (peaks.last().map(|p| p.1).unwrap_or(0) / 65536 + 1) * 64);
+    o.evals = peaks.len() as u64;
+    o
+}
+
 #[derive(Clone, Debug, Hash, Serialize, Deserialize)]
 struct Stream {
     name: String,
@@ -777,6 +837,12 @@ fn stream_cases(tier: Tier) -> Vec<Stream> {
         Stream { name: "SEIPDv1 AES-128, reader in CheckFirst mode with a 1 MiB limit".into(), cfg: MsgCfg { enc: Enc::V1(7), esks: pw.clone(), ..base.clone() }, v1_mode: 2, opt_order: 0 },
         Stream { name: "signed + zlib + SEIPDv2, armored".into(), cfg: MsgCfg { compression: 2, signers: vec![(KeyKind::Ed25519V4, 0)], enc: Enc::V2(7, 2, 6), esks: pw.clone(), armor: true, ..base.clone() }, v1_mode: 0, opt_order: 0 },
     ];
+    // every CFB cipher in both non-default read modes (each cipher has its own decryptor arm)
+    for (sym, name) in [(1u8, "IDEA"), (2, "TripleDES"), (3, "CAST5"), (4, "Blowfish"), (8, "AES-192"), (9, "AES-256"), (10, "Twofish"), (11, "Camellia-128"), (12, "Camellia-192"), (13, "Camellia-256")] {
+        for (v1_mode, label) in [(1u8, "Streaming mode"), (2, "CheckFirst with a 1 MiB limit")] {
+            v.push(Stream { name: format!("SEIPDv1 {name}, reader in {label}"), cfg: MsgCfg { enc: Enc::V1(sym), esks: pw.clone(), ..base.clone() }, v1_mode, opt_order: 0 });
+        }
+    }
     // the read mode must survive whatever other option is set on the same value, in any order
     for (v1_mode, label) in [(1u8, "Streaming mode"), (2, "CheckFirst with a 1 MiB limit")] {
         for opt_order in 1..=4u8 {
@@ -1050,9 +1116,16 @@ pub fn check(ctx: &Ctx) {
     ctx.run_space(
         "streaming",
         true,
-        "messages of 1 and 16 MiB (thorough: 256 MiB) produced by MessageBuilder::from_reader from an allocation-free source and consumed by Message::from_bytes / from_armor -> decrypt -> decompress -> 4 KiB reads -> verify through a fixed 256 KiB ring buffer between two threads, for 9 (13) configurations (literal, partial sizes, zlib/deflate/bzip2, one-pass signed, SEIPDv2 with 64 B / 64 KiB / 4 MiB chunks, SEIPDv1 streaming, armored stack): per-thread allocation peak at the larger sizes <= peak at the first size that fills the pipeline's largest unit (AEAD chunk / partial chunk) + 256 KiB + 2 units, and below a fixed ceiling (8 MiB + 8 x chunk + 4 x partial); SEIPDv1 CheckFirst with a 1 MiB limit must refuse every message above it while buffering <= 3.5 MiB",
+        "messages of 1 and 16 MiB (thorough: 256 MiB) produced by MessageBuilder::from_reader from an allocation-free source and consumed by Message::from_bytes / from_armor -> decrypt -> decompress -> 4 KiB reads -> verify through a fixed 256 KiB ring buffer between two threads, for 9 (13) configurations (literal, partial sizes, zlib/deflate/bzip2, one-pass signed, SEIPDv2 with 64 B / 64 KiB / 4 MiB chunks, SEIPDv1 in streaming mode and CheckFirst with a limit for each of the 11 CFB ciphers, option orders, armored stack): per-thread allocation peak at the larger sizes <= peak at the first size that fills the pipeline's largest unit (AEAD chunk / partial chunk) + 256 KiB + 2 units, and below a fixed ceiling (8 MiB + 8 x chunk + 4 x partial); SEIPDv1 CheckFirst with a 1 MiB limit must refuse every message above it while buffering <= 3.5 MiB",
         stream_cases(tier).into_par_iter(),
         |c| run_stream(tier, c),
+    );
+    ctx.run_space(
+        "file_entry_points",
+        true,
+        "Message::from_file and Message::from_armor_file on files of 1 and 16 (thorough 64) MiB (literal, zlib) read with 4 KiB reads: allocation peak independent of the file size",
+        vec![FileRead { armor: false, compression: 0 }, FileRead { armor: true, compression: 0 }, FileRead { armor: false, compression: 2 }].into_par_iter(),
+        |c| run_file_read(tier, c),
     );
     worker::run_sharded(ctx, "argon2_ceiling", true, "Argon2 parameter triples (t, p, encoded m) through StringToKey::derive_key - thorough: ALL 2^24; quick: every value 0..255 of each octet against the 12 x 12 grid of edge values {0,1,2,4,16,21,22,31,32,33,128,255} of the other two (~100000 triples): every triple beyond the documented ceiling (t > 32 or p > 32 or m > 2^21 KiB) must be refused with < 64 KiB allocated; triples inside the ceiling are executed where cheap (m <= 2^9 KiB, t <= 3, p <= 4): verdict = RFC 9106 legality, peak <= declared m + 256 KiB; evaluations = triples executed or refused", 256, tier.pick(8, 4), Duration::from_secs(tier.pick(90, 600)), &|i| json!(i));
     let hashes: Vec<u8> = tier.pick(vec![2, 8], vec![1, 2, 3, 8, 9, 10, 11, 12, 14]);
@@ -1086,6 +1159,7 @@ pub fn replay(space: &str, case: &Value) -> Option<Outcome> {
             Some(run_family(Tier::Quick, fam))
         }
         "streaming" => replay_as::<Stream>(case, |c| run_stream(Tier::Thorough, c)),
+        "file_entry_points" => replay_as::<FileRead>(case, |c| run_file_read(Tier::Quick, c)),
         "argon2_ceiling" => Some(run_argon2(Tier::Thorough, case.as_u64()? as u8)),
         "iterated_s2k" => replay_as::<Iter>(case, run_iterated),
         _ => None,
